@@ -173,6 +173,12 @@ pub fn judge(prop: Prop, cfg: &TreeCfg, out: &Result<TreeOut, String>) -> Option
                 if let Some(m) = skeleton_check(&sink.dom.borrow()) {
                     return Some(("skeleton".into(), m));
                 }
+                // the same predicate on the tree the reference sink (RcDom) materialised
+                if let Some(rc) = &sink.rc {
+                    if let Some(m) = skeleton_check(&dom_from_rcdom(&rc.document)) {
+                        return Some(("skeleton-rcdom".into(), m));
+                    }
+                }
             }
         },
         Prop::C20 => {
@@ -476,6 +482,31 @@ pub fn jobs(tier: Tier, full: bool) -> Vec<Job> {
             v.push(Job { name: format!("J6/{}", w.concat()), cfg: TreeCfg::default(), prefix: w, sigma: sig6.clone(), depth });
         }
     }
+    // J7: prepared customizable-select structures (selectedcontent mirroring below nested groups)
+    if full {
+        let sig7: Vec<&'static str> = themed().into_iter().find(|t| t.0 == "select").unwrap().1;
+        let sc: Vec<&'static str> = vec!["<select>", "<button>", "<selectedcontent>", "</button>"];
+        let tails: Vec<Vec<&'static str>> = vec![
+            vec![],
+            vec!["<optgroup>", "<div>", "<optgroup>"],
+            vec!["<option selected>", "A", "</option>", "<optgroup>", "<div>", "<optgroup>"],
+            vec!["<optgroup>", "<div>", "<div>"],
+            vec!["<div>", "<optgroup>", "<div>"],
+            vec!["<option>", "A", "<b>", "B", "</option>", "<option selected>"],
+            vec!["<div>", "<selectedcontent>", "</div>", "<option selected>", "<i>"],
+            vec!["<hr>", "<optgroup>", "<option selected>", "<i>", "x", "<b>"],
+        ];
+        let depth = tier.pick(3, 4);
+        for t in tails {
+            let mut w = sc.clone();
+            w.extend(t);
+            v.push(Job { name: format!("J7/{}", w.concat()), cfg: TreeCfg::default(), prefix: w.clone(), sigma: sig7.clone(), depth });
+        }
+        let mut w: Vec<&'static str> = vec!["<select multiple>", "<button>", "<selectedcontent>", "</button>", "<optgroup>"];
+        v.push(Job { name: format!("J7/{}", w.concat()), cfg: TreeCfg::default(), prefix: w.clone(), sigma: sig7.clone(), depth });
+        w = vec!["<div>", "<selectedcontent>", "</div>", "<select>", "<optgroup>"];
+        v.push(Job { name: format!("J7/{}", w.concat()), cfg: TreeCfg::default(), prefix: w, sigma: sig7.clone(), depth });
+    }
     for f in fragment_contexts() {
         if !full && (f.local == "select" || f.local == "option") {
             continue;
@@ -495,7 +526,7 @@ pub fn main(ctx: &Ctx, prop: Prop) -> ! {
     env.invariants = prop == Prop::C04;
     env.gc = prop == Prop::C18;
     for j in js.iter_mut() {
-        j.cfg.with_rcdom = prop == Prop::C20;
+        j.cfg.with_rcdom = prop == Prop::C20 || prop == Prop::C06;
         if prop == Prop::C06 && j.cfg.fragment.is_some() {
             j.depth = 0;
         }
